@@ -507,6 +507,15 @@ def evaluate(ctx, cases):
                     'protocol events': [list(e) for e in o['events'][:12]]}, cap=3)
 
 
+def pool_doc(r):
+    """a document of the C10 pool that does not make the schema load a further namespace during validation (such documents
+    are outside the property)"""
+    while True:
+        d = c10.gen_doc(r)
+        if 'xlink' not in d['xml']:
+            return d
+
+
 def gen(ctx):
     import random
     cases = []
@@ -514,7 +523,7 @@ def gen(ctx):
     for i in range(60 if q else 2400):
         seed = ctx.rng.randrange(10 ** 9)
         r = random.Random(seed)
-        docs = [c10.gen_doc(r) for _ in range(r.randint(2, 4))]
+        docs = [pool_doc(r) for _ in range(r.randint(2, 4))]
         n = r.randint(2, 4)
         programs = [[[r.choice(c10.OPS), r.randrange(len(docs)), r.randint(0, 7)] for _ in range(r.randint(1, 4))] for _ in range(n)]
         mode = 'controlled' if i % 4 else 'free'
@@ -527,12 +536,12 @@ def gen(ctx):
         r = random.Random(seed)
         n = r.randint(2, 4)
         if i % 2:
-            docs = [c10.gen_doc(r)]
+            docs = [pool_doc(r)]
             programs = [[['simple_scratch', 0, r.randint(0, 7)] for _ in range(r.randint(1, 3))] for _ in range(n)]
         else:
             docs = []
             while len(docs) < 3:
-                d = c10.gen_doc(r)
+                d = pool_doc(r)
                 if d['root'] in ('R', 'R2') and 'xsi:type="B"' in d['xml'] or 'xsi:type="C"' in d['xml']:
                     docs.append(d)
             programs = [[[r.choice(['decode_lax', 'iter_errors', 'is_valid']), r.randrange(len(docs)), 0] for _ in range(r.randint(1, 2))]
@@ -547,7 +556,7 @@ def gen(ctx):
         n = r.randint(2, 4)
         docs = []
         for k in range(r.randint(2, 4)):
-            d = c10.gen_doc(r)
+            d = pool_doc(r)
             pro = '<?xml version="1.0"?><!-- %s -->' % ('x' * r.randint(30, 120))
             if k == 0 or r.random() < 0.4:
                 pro += '<!DOCTYPE %s [<!ENTITY e "x">]>' % d['root']
